@@ -155,6 +155,16 @@ def boundary_programs(tier):
                '}' % (', '.join(names), allrefs))
         yield ('function f(){ var %s; o = {set s(p){ p; %s }}; }' % (
             ', '.join(names), allrefs))
+        # one-letter names among many: locals, a parameter shadowed by an
+        # inner local, an outer name used inside
+        yield ('function f(n){ var %s, b, i; %s b = i; n; function g(){ '
+               'var n, b; n = b; i; } }' % (', '.join(names), allrefs))
+        yield ('function f(a, b){ var %s; %s return function(c){ var a; '
+               'return a + b + c; }; }' % (', '.join(names), allrefs))
+        # more code after a getter / setter / function expression
+        yield ('function f(){ var w0 = u(); var o = {get s(){ var q; return '
+               'q + w0; }}; var %s; %s var w1 = 2; w1; w2; var w2; }; '
+               'var t0; t0;' % (', '.join(names[:60]), uses))
 
 
 def make_printers(conf):
